@@ -235,8 +235,17 @@ class SymArray:
             return R.to_bool(v)
         return v
 
-    def take(self, idx):
-        return SymArray([select(self.e, i) for i in idx], self.dtype)
+    def take(self, idx, axis=None, out=None, mode="raise"):
+        return m_take(self, idx, mode=mode)
+
+    def argsort(self, axis=-1, kind=None, **kw):
+        return m_argsort(self)
+
+    def cumsum(self, axis=None):
+        return m_cumsum(self)
+
+    def clip(self, lo, hi):
+        return m_clip(self, lo, hi)
 
     def astype(self, t):
         if t in (int, "int", numpy.int64, "int64"):
@@ -680,6 +689,85 @@ def m_array_equal(a, b):
     return R.call_value(all, [[R.compare(ast.Eq(), x, y) for x, y in zip(la, lb)]], {})
 
 
+def m_argsort(a, axis=-1, kind=None, **kw):
+    """stable argsort of a 1-d symbolic array: sorter[k] = the index whose rank is k"""
+    es = a.e
+    n = len(es)
+    ranks = []
+    for i in range(n):
+        terms = []
+        for j in range(n):
+            if j == i:
+                continue
+            lt = truth(R.compare(ast.Lt(), es[j], es[i]))
+            eq = truth(R.compare(ast.Eq(), es[j], es[i]))
+            terms.append(z3.If(z3.Or(lt, z3.And(eq, z3.BoolVal(j < i))), 1, 0))
+        ranks.append(z3.Sum(terms) if terms else z3.IntVal(0))
+    out = []
+    for k in range(n):
+        idx = z3.IntVal(n - 1)
+        for i in range(n - 2, -1, -1):
+            idx = z3.If(ranks[i] == k, i, idx)
+        out.append(Sym(idx, int))
+    return SymArray(out, int)
+
+
+def m_sort(a, axis=-1, kind=None, **kw):
+    return a[m_argsort(a)]
+
+
+def m_searchsorted_arr(arr, v, side="left", sorter=None):
+    """numpy.searchsorted on a symbolic sorted array: number of elements before the insertion point"""
+    if sorter is not None:
+        arr = arr[sorter]
+    es = as_list(arr)
+
+    def one(x):
+        op = ast.Lt() if side == "left" else ast.LtE()
+        tot = 0
+        for e in es:
+            c = R.compare(op, e, x)
+            tot = R.binop(ast.Add(), tot, merge(truth(c), 1, 0) if is_sym(c) else (1 if c else 0))
+        return tot
+    if isinstance(v, SymArray):
+        return SymArray([one(x) for x in v.e], int)
+    return one(v)
+
+
+def m_take(a, indices, axis=None, out=None, mode="raise"):
+    es = as_list(a)
+    n = len(es)
+    res = []
+    for i in as_list(indices):
+        if mode == "clip":
+            if is_sym(i):
+                t = R.num(i)[0]
+                i = Sym(z3.If(t < 0, 0, z3.If(t > n - 1, n - 1, t)), int)
+            else:
+                i = min(max(int(i), 0), n - 1)
+        elif mode == "wrap":
+            raise Unsupported("take(mode='wrap')")
+        res.append(select(es, i))
+    return SymArray(res, getattr(a, "dtype", None))
+
+
+def m_clip(a, lo, hi, **kw):
+    return elementwise(lambda x: R.py_max([lo, R.py_max([x, hi], False)], True), a)
+
+
+def m_cumsum(a, axis=None, **kw):
+    out, tot = [], 0
+    for x in as_list(a):
+        tot = R.binop(ast.Add(), tot, x)
+        out.append(tot)
+    return SymArray(out)
+
+
+_reg(numpy.argsort, m_argsort)
+_reg(numpy.sort, m_sort)
+_reg(numpy.take, m_take)
+_reg(numpy.clip, m_clip)
+_reg(numpy.cumsum, m_cumsum)
 _reg(numpy.zeros_like, m_zeros_like)
 _reg(numpy.asarray, m_asarray)
 _reg(numpy.array, m_asarray)
